@@ -125,7 +125,9 @@ def render_findings():
     for l in open("/verif/known_findings.jsonl"):
         d = json.loads(l)
         what = " ".join(d["what"].split())
-        if d["status"] == "fixed":
+        if what.startswith("fixed: property=") or what.startswith("known: property="):
+            lines.append(f"{what} [violation key {d['key']}]")
+        elif d["status"] == "fixed":
             lines.append(f"fixed: property={d['property']} {d.get('commit', '?')} {what} [violation key {d['key']}]")
         else:
             lines.append(f"known: property={d['property']} {what} [violation key prefix {d['key']}]")
